@@ -40,7 +40,9 @@ fn stub_get_page(_this: &PageResolver, page_number: PageNumber, _hint: PageHint)
     assert!(page_number.region == 0 && page_number.page_order == 0 && i < 3, "only pages of the tree are fetched");
     unsafe {
         FETCHED[i] += 1;
-        let mem: Arc<[u8]> = Arc::from(&page_ref(i)[..]);
+        // Arc::new(array) + unsizing keeps the bytes' constants; Arc::from(slice) is a memcpy that loses them
+        let arr: Arc<[u8; PG]> = Arc::new(*page_ref(i));
+        let mem: Arc<[u8]> = arr;
         Ok(crate::tree_store::page_store::verif_page_impl(mem, page_number))
     }
 }
@@ -86,18 +88,21 @@ fn any_widths() -> (Option<usize>, Option<usize>) {
 #[kani::stub(alloc::fmt::format, no_format)]
 #[kani::stub(crate::panicking, not_panicking)]
 fn c12_verify_single_page_tree() {
+    // The type byte must be concrete on each path (a symbolic one makes CBMC unroll the BRANCH
+    // arm's recursion over a symbolic child count): dispatch, with the whole body in each arm.
+    let kind: u8 = kani::any();
+    match kind {
+        0 => single_page_case(LEAF),
+        1 => single_page_case(0),
+        _ => single_page_case(0xFF),
+    }
+}
+
+fn single_page_case(type_byte: u8) {
     let (fk, fv) = any_widths();
     let mut p: [u8; PG] = kani::any();
+    p[0] = type_byte;
     p[1] = 0;
-    // The type byte is concrete on every path (LEAF, or one of two non-page values): with a
-    // symbolic type byte CBMC also unrolls the BRANCH arm's recursion to the unwind bound over a
-    // symbolic child count, which is exponential. Branch roots are the two-level harness.
-    let kind: u8 = kani::any();
-    p[0] = match kind {
-        0 => LEAF,
-        1 => 0,
-        _ => 0xFF,
-    };
     unsafe {
         PAGE0 = p;
         CK = [kani::any(), kani::any(), kani::any()];
@@ -114,10 +119,10 @@ fn c12_verify_single_page_tree() {
     let r = tree.verify_checksum();
     match r {
         Ok(v) => {
-            let want = p[0] == LEAF && leaf_ok(0, fk, fv) && expected == unsafe { CK[0] };
+            let want = type_byte == LEAF && leaf_ok(0, fk, fv) && expected == unsafe { CK[0] };
             assert!(v == want, "verified iff leaf, checksum computable, and equal to the stored one");
             kani::cover!(v, "well-formed leaf verified");
-            kani::cover!(!v && p[0] == LEAF && !leaf_ok(0, fk, fv), "leaf with uncomputable checksum rejected");
+            kani::cover!(!v && type_byte == LEAF && !leaf_ok(0, fk, fv), "leaf with uncomputable checksum rejected");
         }
         Err(_) => assert!(false, "verification of in-memory pages cannot fail with an error"),
     }
@@ -136,6 +141,14 @@ fn c12_verify_single_page_tree() {
 #[kani::stub(alloc::fmt::format, no_format)]
 #[kani::stub(crate::panicking, not_panicking)]
 fn c12_verify_two_level_tree() {
+    if kani::any() {
+        two_level_case(LEAF);
+    } else {
+        two_level_case(0);
+    }
+}
+
+fn two_level_case(second_type: u8) {
     let fv = if kani::any() { Some(1usize) } else { None };
     let stored: [u128; 2] = kani::any();
     let key: [u8; 2] = kani::any();
@@ -153,7 +166,7 @@ fn c12_verify_two_level_tree() {
     // concrete type bytes (see c12_verify_single_page_tree): first child a leaf, second a leaf
     // or a page of unknown type
     c1[0] = LEAF;
-    c2[0] = if kani::any() { LEAF } else { 0 };
+    c2[0] = second_type;
     unsafe {
         PAGE0 = root;
         PAGE1 = c1;
